@@ -1344,6 +1344,26 @@ func classifyResult(w *World, h *ssa.Function, at ssa.Instruction, v ssa.Value, 
 		if ea.V == nil {
 			continue
 		}
+		// errors.Is(v, target) == true implies v != nil
+		if wantNil && ea.Kind == "true" {
+			if ic := valueCall(ea.V); ic != nil {
+				if d, ok := describeCallee(ic); ok && d.Pkg == "errors" && (d.Name == "Is" || d.Name == "As") && len(ic.Common().Args) == 2 && sameValue(ic.Common().Args[0], v) {
+					return nil
+				}
+			}
+		}
+		// v == sentinel (a package-level error variable) implies v != nil
+		if wantNil && ea.Kind == "cmp" && ea.Op == token.EQL {
+			for _, pair := range [][2]ssa.Value{{ea.X, ea.Y}, {ea.Y, ea.X}} {
+				if sameValue(pair[0], v) {
+					if u, ok := pair[1].(*ssa.UnOp); ok {
+						if _, isG := u.X.(*ssa.Global); isG {
+							return nil
+						}
+					}
+				}
+			}
+		}
 		// a successful type assertion x.(T) implies x != nil
 		if wantNil && ea.Kind == "true" {
 			if ex, ok := ea.V.(*ssa.Extract); ok && ex.Index == 1 {
